@@ -210,6 +210,16 @@ def check_C01(ctx, unit):
                 if not (a2.kind == "DeclRefExpr" and a2.d["d"] in idxp):
                     problems.append("frame index argument is %s, not the index parameter" % _strip_ids(canon(a2)))
             if ov is not None:
+                # the overhead may be computed by a folded helper and only held in the local that is used here
+                from .ir import value_leaves as _vl
+                hops_ = 0
+                while ov in inits and not RA._reassigned(f, ov) and hops_ < 4:
+                    ls_ = _vl(f, inits[ov])
+                    if len(ls_) == 1 and std_unwrap(ls_[0]).kind == "DeclRefExpr" and std_unwrap(ls_[0]).get("local") \
+                            and std_unwrap(ls_[0]).d["d"] != ov:
+                        ov, hops_ = std_unwrap(ls_[0]).d["d"], hops_ + 1
+                    else:
+                        break
                 zero_init = (ov in inits and inits[ov].strip().cv() == 0) or any(
                     x.kind == "BinaryOperator" and x.op == "=" and std_unwrap(x.children[0]).kind == "DeclRefExpr"
                     and std_unwrap(x.children[0]).d["d"] == ov and x.children[1].strip().cv() == 0 for x in f.events())
@@ -305,8 +315,9 @@ def check_C01(ctx, unit):
         for f in bn.get("allocate", []):
             from .ir import value_leaves
             rets = []
-            for r0 in f.return_nodes():
-                for lv in value_leaves(f, r0.child("val")):
+            from .ir import exit_values as _ev
+            for r0, v0 in _ev(f):          # (a result variable of a single-exit path is read as the values that reach the exit)
+                for lv in value_leaves(f, v0):
                     if not lv.get("nullc") and lv.kind != "CXXNullPtrLiteralExpr" and not _is_nullish(lv):
                         rets.append((r0, lv))
             problems = []
@@ -340,6 +351,8 @@ def check_C01(ctx, unit):
                                 todo.append(u_.d["d"])
                                 continue
                             problems.append("the returned block can come from %s at %s" % (_strip_ids(canon(u_)), sv.loc))
+                elif path(v) and path(v)[-1] == "available":
+                    kinds.add("small")          # (the definitions of the returned variable, each a read of <frame>->available)
                 elif path(v) and path(v)[-1] == "address":
                     kinds.add("large")
                 elif path(_res(f, v)) and path(_res(f, v))[-1] == "address":
@@ -352,8 +365,9 @@ def check_C01(ctx, unit):
                      "; ".join(problems) if problems else "small path returns the popped list head, large path the frame's object address", f)
         for f in bn.get("get_size", []):
             from .ir import value_leaves
-            vals = sorted({_usable_size_shape(f, lv) for r in f.return_nodes() if r.child("val") is not None
-                           for lv in value_leaves(f, r.child("val"))})
+            from .ir import exit_values as _ev2
+            vals = sorted({_usable_size_shape(f, lv) for r, v0 in _ev2(f) if v0 is not None
+                           for lv in value_leaves(f, v0)})
             ok = vals == sorted(["0", "bucket_to_size(<frame>.index)", "<frame>.length"])
             ctx.inst("E.handed-out", "%s::get_size%s" % (POOL, tag), ok, f.loc, "returns %s" % vals, f)
         for f in bn.get("allocate", []):
@@ -459,7 +473,8 @@ def check_C02(ctx, unit):
             for f in bn.get(name, []):
                 pp = f.params()[0]["d"]
                 lk = frame_lookups(f)
-                derefs = [n for n in f.events() if n.kind == "MemberExpr" and n.get("arrow") and (
+                from .ir import ref_local
+                derefs = [n for n in f.events() if n.kind == "MemberExpr" and (n.get("arrow") or (n.children and ref_local(n.children[0]))) and (
                     (path(n) and path(n)[0].startswith("v:")) or (n.get("mc") or "").endswith("frame"))]
                 bad = []
                 for n in derefs:
@@ -468,7 +483,7 @@ def check_C02(ctx, unit):
                         box = {}
 
                         def assume(a, v, box=box):
-                            a = a.strip()
+                            a = std_unwrap(a)         # (through the parameters of folded helpers)
                             if a.kind == "DeclRefExpr" and a.d["d"] == pp:
                                 box["v"] = v
                         flow.refine_bool(cond, truth, lambda a: None, assume)
@@ -534,6 +549,19 @@ def check_C02(ctx, unit):
                     if init is not None:
                         defs.append(_usable_size_shape(f, init))
                     okd = set(defs) <= {"bucket_to_size(<frame>.index)", "<frame>.length"} and defs
+                    if not okd and defs:
+                        # which of them can actually be in the variable when the copy runs (a `= 0` that is overwritten on
+                        # every path that reaches the copy never is): asked path by path, with the outcome of the in-place
+                        # helpers followed through the local that holds it
+                        from .inline import inline_variant as _iv
+                        byd_ = {g.d["did"]: g for g in fns}
+                        fi_ = _iv(unit, f, lambda cal: byd_.get(cal.get("did")) is not None and byd_[cal["did"]].get("access") in ("private", "protected")
+                                  and ((byd_[cal["did"]].get("ret") or "") == "bool" or _returns_outcome_constants(byd_[cal["did"]])))
+                        cps2 = [x.id for x in fi_.all_nodes() if x.is_call() and x.callee and x.callee["n"] in ("memcpy", "__builtin_memcpy", "memmove") and len(x.args) == 3
+                                and std_unwrap(x.args[2]).kind == "DeclRefExpr" and std_unwrap(x.args[2]).d["d"] == cnt.d["d"]]
+                        r3 = _old_pointer_paths(fi_, f.params()[0]["d"], f.params()[-1]["d"], track=cnt.d["d"], at=set(cps2))
+                        if r3[0] is not None and r3[2] and r3[2] <= {"bucket_to_size(<frame>.index)", "<frame>.length"}:
+                            okd = True
                     if not okd:
                         problems.append("copy length takes values %s" % sorted(set(defs)))
                 else:
@@ -546,7 +574,8 @@ def check_C02(ctx, unit):
 
             def sel(cal, byd=byd):
                 g = byd.get(cal.get("did"))
-                return g is not None and g.get("access") in ("private", "protected") and (g.get("ret") or "") == "bool"
+                return g is not None and g.get("access") in ("private", "protected") and (
+                    (g.get("ret") or "") == "bool" or _returns_outcome_constants(g))
             fi = inline_variant(unit, f, sel)
             ns_did = f.params()[-1]["d"]
             arms = 0
@@ -573,6 +602,13 @@ def check_C02(ctx, unit):
                                 arm_shapes |= shapes
                     if not okp:
                         problems.append("returns the old pointer at %s without new_size <= usable size known on that path" % r.loc)
+            if arm_shapes != {"bucket_to_size(<frame>.index)", "<frame>.length"} or any("returns the old pointer" in p_ for p_ in problems):
+                # the same question asked path by path (single exit through a result variable, outcome held in a local of a
+                # two-valued type): every path that returns the old pointer has passed new_size <= usable size
+                ps_bad, ps_shapes = _old_pointer_paths(fi, f.params()[0]["d"], ns_did)
+                if ps_bad is not None and not ps_bad and ps_shapes == {"bucket_to_size(<frame>.index)", "<frame>.length"}:
+                    problems = [p_ for p_ in problems if "returns the old pointer" not in p_]
+                    arm_shapes = ps_shapes
             if arm_shapes != {"bucket_to_size(<frame>.index)", "<frame>.length"}:
                 # (one arm per kind of block, or one shared arm whose size variable is defined per kind)
                 problems.append("expected in-place success for slab blocks and for large blocks, found %d arm(s) over %s" % (arms, sorted(arm_shapes)))
@@ -622,6 +658,25 @@ def check_C02(ctx, unit):
             for f in bn.get(name, []):
                 ns = f.params()[-1]["d"]
                 bad = []
+                if (f.get("ret") or "") != "bool" and _returns_outcome_constants(f):
+                    # a two-valued outcome type: the outcome must tell `fits` from `does not fit` -- no constant is returned
+                    # both under new_size <= usable size and without it (which of the two makes realloc keep the block is
+                    # decided on realloc itself, path by path)
+                    under, without = set(), set()
+                    for r in f.return_nodes():
+                        v = r.child("val")
+                        cvv = std_unwrap(v).cv() if v is not None else None
+                        fits = False
+                        for cond, truth in flow.facts_at(f, r.id):
+                            rel = flow.fact_relation(cond, truth)
+                            if rel and rel[1] in ("<=", "<", "==") and std_unwrap(rel[0]).kind == "DeclRefExpr" and std_unwrap(rel[0]).d["d"] == ns \
+                                    and _usable_size_shape(f, rel[2]) in ("bucket_to_size(<frame>.index)", "<frame>.length"):
+                                fits = True
+                        (under if fits else without).add(cvv)
+                    okh = bool(under) and bool(without) and not (under & without)
+                    ctx.inst("E.realloc-copy", "%s::%s%s" % (POOL, name, tag), okh, f.loc,
+                             "the outcome tells new_size <= usable size (%s) from the rest (%s): %s" % (sorted(map(str, under)), sorted(map(str, without)), okh), f)
+                    continue
                 for r in f.return_nodes():
                     v = r.child("val")
                     if v is not None and v.strip().cv() == 1:
@@ -1416,3 +1471,132 @@ def check_allocator_forwards(ctx, unit, rule="W.allocator-forwards"):
         ctx.inst(rule, "%s::%s" % (f.owner_clsqn, f.name), ok, f.loc,
                  "every path reaches slab_pool::%s" % TABLE[f.name][0] if ok else
                  "%s() returns on some path without having asked the pool (slab_pool::%s)" % (f.name, TABLE[f.name][0]), f)
+
+
+def _returns_outcome_constants(g):
+    """g returns values of a non-bool two-valued kind: every return value is an integer constant (enumerator), exactly two
+    distinct ones occur"""
+    try:
+        vals = set()
+        rs = g.return_nodes()
+        if not rs:
+            return False
+        for r in rs:
+            v = r.child("val")
+            if v is None:
+                return False
+            c = std_unwrap(v).cv()
+            if c is None:
+                return False
+            vals.add(c)
+        return len(vals) == 2 and "*" not in (g.get("ret") or "") and (g.get("ret") or "") not in ("int", "size_t", "unsigned int", "long", "unsigned long")
+    except Exception:
+        return False
+
+
+def _old_pointer_paths(fi, pdid, nsdid, track=None, at=()):
+    """Path-sensitive: (locations where the old pointer is returned without new_size <= usable size on the path, shapes of
+    the usable sizes seen on the paths that do return it).  Follows a result variable and a local that holds the constant
+    a folded helper returned; branches on that local (or on the helper's value itself) are taken only the way the constant
+    allows.  None if the state space is too large."""
+    v2c = {}
+    for n in fi.all_nodes():
+        if n.d.get("inlined") and isinstance(n.d.get("rets"), list):
+            for r in n.d["rets"]:
+                v2c[r] = n.id
+    bad, shapes = [], set()
+    seen_at = set()
+
+    def is_p(x):
+        x = std_unwrap(x)
+        hops = 0
+        while x.kind in ("ImplicitCastExpr", "CStyleCastExpr", "CXXStaticCastExpr", "ParenExpr") and x.children and hops < 6:
+            x, hops = std_unwrap(x.children[0]), hops + 1
+        return x.kind == "DeclRefExpr" and x.d.get("d") == pdid
+
+    def call_of(x):
+        x = std_unwrap(x)
+        hops = 0
+        while x is not None and hops < 8:
+            if x.d.get("inlined") and isinstance(x.d.get("rets"), list):
+                return x.id
+            if x.kind in ("ImplicitCastExpr", "ParenExpr", "ExprWithCleanups", "CXXBindTemporaryExpr", "CXXStaticCastExpr") and x.children:
+                x, hops = x.children[0], hops + 1
+            else:
+                break
+        return None
+
+    def tr(n, st):
+        fit, resp, consts = st
+        if n.kind == "InlinedReturn" and n.d.get("val") in v2c:
+            c = std_unwrap(fi.node(n.d["val"])).cv()
+            consts = tuple(sorted((dict(consts) | {("c", v2c[n.d["val"]]): c}).items(), key=str)) if c is not None else consts
+        tgt, rhs = None, None
+        if n.kind == "BinaryOperator" and n.op == "=" and std_unwrap(n.children[0]).kind == "DeclRefExpr":
+            tgt, rhs = std_unwrap(n.children[0]).d["d"], n.children[1]
+            out = [(tgt, rhs)]
+        elif n.kind == "DeclStmt":
+            out = [(d_["d"], fi.node(d_["init"])) for d_ in n.get("decls", []) if "init" in d_]
+        else:
+            out = []
+        if track is not None and n.id in at:
+            seen_at.add(dict(resp).get(("shape", track), "<undefined>"))
+        for tgt, rhs in out:
+            if track is not None and tgt == track:
+                m3 = dict(resp)
+                m3[("shape", track)] = _usable_size_shape(fi, rhs)
+                resp = tuple(sorted(m3.items(), key=str))
+                continue
+            m = dict(consts)
+            ci = call_of(rhs)
+            if ci is not None and ("c", ci) in m:
+                m[("v", tgt)] = m[("c", ci)]
+            else:
+                m.pop(("v", tgt), None)
+            consts = tuple(sorted(m.items(), key=str))
+            m2 = dict(resp)
+            m2[tgt] = is_p(rhs) or (std_unwrap(rhs).kind == "DeclRefExpr" and dict(resp).get(std_unwrap(rhs).d.get("d"), False))
+            resp = tuple(sorted(m2.items(), key=str))
+        if n.kind == "ReturnStmt":
+            v = n.child("val")
+            if v is not None:
+                x = std_unwrap(v)
+                old = is_p(v) or (x.kind == "DeclRefExpr" and dict(resp).get(x.d.get("d"), False))
+                if old:
+                    if not fit:
+                        bad.append(n.loc)
+                    else:
+                        shapes.update(fit)
+        return [(fit, resp, consts)]
+
+    def rf(cond, truth, st):
+        fit, resp, consts = st
+        m = dict(consts)
+
+        def val(leaf):
+            x = std_unwrap(leaf)
+            ci = call_of(leaf)
+            if ci is not None and ("c", ci) in m:
+                return m[("c", ci)]
+            if x.kind == "DeclRefExpr" and ("v", x.d.get("d")) in m:
+                return m[("v", x.d["d"])]
+            if x.kind == "DeclRefExpr" and x.get("dk") == "EnumConstant":
+                return x.cv()
+            return None
+        try:
+            v = flow.sem_eval(cond, val)
+        except Exception:
+            v = None
+        if v is not None and bool(v) != bool(truth):
+            return []
+        rel = flow.fact_relation(cond, truth)
+        if rel is not None and rel[1] in ("<=", "<", "==") and std_unwrap(rel[0]).kind == "DeclRefExpr" and std_unwrap(rel[0]).d["d"] == nsdid:
+            sh = _usable_size_shape(fi, rel[2])
+            if sh in ("bucket_to_size(<frame>.index)", "<frame>.length"):
+                fit = fit | {sh}
+        return [(fit, resp, consts)]
+    try:
+        flow.run(fi, [(frozenset(), (), ())], tr, rf, limit=200000)
+    except flow.TooManyStates:
+        return (None, set()) if track is None else (None, set(), set())
+    return (sorted(set(bad)), shapes) if track is None else (sorted(set(bad)), shapes, seen_at)
